@@ -39,7 +39,7 @@ func seedJournals(f *testing.F) {
 	for _, s := range []string{
 		"", "\n", "\xff", "2020-01-01", "2020-01-01 open A", "2020-01-01 \"", "@accrue", "@performance(", "include \"",
 		"2020-01-01 \"x\"\nA:B C:D 1 X", "2020-01-01 balance\nA:B 1 X\nA:B 2 Y\n", "@accrue monthly 2020-01-01 2020-12-31 A:B\n@performance(X,Y)\n2020-01-01 \"x\"\nA:B C:D 1 X\n\n",
-		"2020-01-01 price A 1.5 B\r\n", "# c\n* h\n// n\n", "\xf0\x9f\x98", "2020-01-01 open $x", "１２３４-０１-０１ open A",
+		"2020-01-01 price A 1.5 B\r\n", "# c\n* h\n// n\n", "\xf0\x9f\x98", "2020-01-01 open $x", "\xef\xbb\xbf2020-01-01 open Assets:A\n", "\xef\xbb\xbf", "# 50% of rent\n2020-01-01 open Assets:A\n", "１２３４-０１-０１ open A",
 	} {
 		f.Add([]byte(s))
 	}
